@@ -23,6 +23,45 @@ def Slot.show : Slot → String
   | .bitVal v => if v then "1" else "0"
   | .startsAt o => s!"@{o}"
 
+/-- operation sequences on one instance.  ops: `new:<value>` | `new` | `pack` | `unpack:<hex>` |
+`size` | `value`; observations: `.` | `b:<hex>` | `s:<n>` | `v:<value>` | `!` -/
+def seqOps {α : Type} (c : InstCodec α) (parseV : String → Option α) (showV : α → String)
+    (toks : List String) : Option String := do
+  let ops : List (Op α) ← toks.mapM fun t =>
+    match t.splitOn ":" with
+    | ["new"] => some (Op.construct (none : Option α))
+    | ["new", v] => (parseV v).map fun v => Op.construct (some v)
+    | ["pack"] => some Op.toBytes
+    | ["unpack", h] => (parseHex h).map Op.unpack
+    | ["size"] => some Op.size
+    | ["value"] => some Op.value
+    | _ => none
+  match ops with
+  | Op.construct v :: rest =>
+    let outs := (Inst.run c (Inst.new c v) rest).2
+    pure (String.intercalate " " ("." :: outs.map fun o => match o with
+      | .done => "." | .bytes b => "b:" ++ showHex b | .size n => s!"s:{n}" | .value v => "v:" ++ showV v
+      | .raised => "!"))
+  | _ => none
+
+def bitSeqOps (toks : List String) : Option String := do
+  let ops ← toks.mapM fun t =>
+    match t.splitOn ":" with
+    | ["new", v, i] => do
+      let i ← i.toNat?
+      let v ← (if v = "-" then some none else if v = "1" then some (some true) else if v = "0" then some (some false) else none)
+      pure (BitOp.construct v i)
+    | ["unpack", h] => (parseHex h).map BitOp.unpack
+    | ["next", i] => i.toNat?.map BitOp.next
+    | ["value"] => some BitOp.value
+    | ["size"] => some BitOp.size
+    | ["pack"] => some BitOp.toBytes
+    | _ => none
+  let outs := (BitInst.run ⟨none, 0⟩ ops).2
+  pure (String.intercalate " " (outs.map fun o => match o with
+    | .done => "." | .nextIs k => s!"n:{k}" | .value v => if v then "v:1" else "v:0" | .size n => s!"s:{n}"
+    | .bytes b => "b:" ++ showHex b | .raised => "!"))
+
 def typesOps : List String → Option String
   | ["t.int", ty, "pack", v] => do
     let t ← parseIntTy ty; let v ← v.toInt?
@@ -69,6 +108,21 @@ def typesOps : List String → Option String
     pure (match runFields msg fs ⟨off, 0⟩ with
       | some (ss, c) => String.intercalate " " (ss.map Slot.show) ++ s!" ; {c.off} {c.bit}"
       | none => "err")
+  | "t.seq" :: kind :: toks =>
+    match kind.splitOn ":" with
+    | ["int", ty] => do
+      let t ← parseIntTy ty
+      seqOps (intInst t) String.toInt? toString toks
+    | ["bits", k] => do
+      let k ← k.toNat?
+      if k = 4 ∨ k = 8 then seqOps (bitsInst k) String.toNat? toString toks else none
+    | ["addr", k] => do
+      let k ← k.toNat?
+      if k = 4 ∨ k = 16 then seqOps (addrInst k) parseHex showHex toks else none
+    | ["str"] => seqOps stringInst parseHex showHex toks
+    | ["var"] => seqOps varInst parseHex showHex toks
+    | ["bit"] => bitSeqOps toks
+    | _ => none
   | _ => none
 
 end PlumVerif
